@@ -465,6 +465,39 @@ def dump_storage(fs, oids, tids):
     return d
 
 
+ITER_START_ERRORS = ('err:CorruptedError', 'err:CorruptedDataError', 'err:ValueError')
+
+
+def classify_iterator_start(got, want, tids):
+    """The recorded open finding …:ro-iterator-start-(raises|wrong)-on-torn-tail and nothing but it.
+    `got`/`want`: full dumps of a READ-ONLY open of a file with an unfinished tail and of the committed
+    prefix; all keys but iterator_start must already be equal (checked by the caller).  Every differing
+    entry of iterator_start must be either (raises) an exception of the three kinds, or (wrong) for a start
+    BEYOND the last committed tid — where nothing is expected — a list holding a tid that is not in the
+    committed prefix (positioned inside the torn tail) or exactly the last committed transaction.
+    Returns None (not this class) | 'raises' | 'wrong'."""
+    g, w = got.get('iterator_start'), want.get('iterator_start')
+    if not (isinstance(g, list) and isinstance(w, list) and len(g) == len(w) == len(tids)) or g == w:
+        return None
+    it = want.get('iterator')
+    if not isinstance(it, list):
+        return None
+    committed = [t[0] for t in it]
+    last = committed[-1] if committed else 0
+    kind = 'raises'
+    for x, y, start in zip(g, w, tids):
+        if x == y:
+            continue
+        if x in ITER_START_ERRORS:
+            continue
+        if y == [] and start > last and isinstance(x, list) and x and \
+                (any(t not in committed for t in x) or x == [last]):
+            kind = 'wrong'
+            continue
+        return None
+    return kind
+
+
 def canon(d):
     return json.dumps(d, sort_keys=True)
 
